@@ -51,20 +51,20 @@ Definition pf_desc (avis kat label : str) : str :=
   trim_space (join_sp [trim_space avis; trim_space kat; trim_space label]).
 
 (* fmt.Println(len(rec), rec): <n> [f1 f2 ...] and a newline -- F13: a debugging statement that
-   writes to standard output.  [pf_debug] is the one place to change when it is removed. *)
-Definition pf_debug : bool := true.
-Definition pf_debug_line (r : list str) : str :=
-  if pf_debug then digits (Z.of_nat (length r)) ++ [32; 91] ++ join_sp r ++ [93; 10] else [].
+   writes to standard output.  [dbg] = true is the pinned code, [dbg] = false the code with
+   that statement removed (findings/C13-postfinance-debug-println.patch). *)
+Definition pf_debug_line (dbg : bool) (r : list str) : str :=
+  if dbg then digits (Z.of_nat (length r)) ++ [32; 91] ++ join_sp r ++ [93; 10] else [].
 
 (* readBookingLine until a record with fewer than 7 or more than 8 fields; EOF is an error.
    Result: (the directives and the remaining items, what was written to stdout). *)
-Fixpoint pf_bookings (acct : account) (cur : commodity) (items : list citem)
+Fixpoint pf_bookings (dbg : bool) (acct : account) (cur : commodity) (items : list citem)
   : mresult (list directive * list citem) * str :=
   match items with
   | [] => (MErr e_eof, [])
   | CBad :: _ => (MErr e_csv, [])
   | CRec r :: rest =>
-    if (Nat.ltb (length r) 7) || (Nat.ltb 8 (length r)) then (MOk ([], rest), pf_debug_line r)
+    if (Nat.ltb (length r) 7) || (Nat.ltb 8 (length r)) then (MOk ([], rest), pf_debug_line dbg r)
     else
       match r with
       | f0 :: f1 :: f2 :: f3 :: f4 :: f5 :: _ =>
@@ -73,7 +73,7 @@ Fixpoint pf_bookings (acct : account) (cur : commodity) (items : list citem)
         | Some d =>
           match pf_amount f2 f3 with
           | MOk q =>
-            let '(res, out) := pf_bookings acct cur rest in
+            let '(res, out) := pf_bookings dbg acct cur rest in
             (mbind res (fun x => MOk (simple_txn d (pf_desc f1 f5 f4) tbd_account acct cur q :: fst x, snd x)), out)
           | MErr m => (MErr m, [])
           | MPanic m => (MPanic m, [])
@@ -93,7 +93,7 @@ Fixpoint pf_disclaimer (items : list citem) : mresult unit :=
   end.
 
 (* Parser.parse; the second component is what has been written to stdout by then *)
-Definition import_postfinance (acct : account) (items : list citem) : mresult (list directive) * str :=
+Definition import_postfinance (dbg : bool) (acct : account) (items : list citem) : mresult (list directive) * str :=
   match pf_keyvalues [] items with
   | MErr m => (MErr m, [])
   | MPanic m => (MPanic m, [])
@@ -102,15 +102,15 @@ Definition import_postfinance (acct : account) (items : list citem) : mresult (l
     | MErr m => (MErr m, [])
     | MPanic m => (MPanic m, [])
     | MOk cur =>
-      let '(res, out) := pf_bookings acct cur rest in
+      let '(res, out) := pf_bookings dbg acct cur rest in
       (mbind res (fun x => mbind (pf_disclaimer (snd x)) (fun _ => MOk (fst x))), out)
     end
   end.
 
 (* runner.runE: the file is opened, then the account flag is resolved *)
-Definition run_postfinance (aflag : str) (items : list citem) : irun :=
+Definition run_postfinance (dbg : bool) (aflag : str) (items : list citem) : irun :=
   match account_flag aflag with
   | AErr => mkRun [] SErr
-  | ANil => let '(r, out) := import_postfinance [] items in finish_run true out r
-  | AAcc a => let '(r, out) := import_postfinance a items in finish_run false out r
+  | ANil => let '(r, out) := import_postfinance dbg [] items in finish_run true out r
+  | AAcc a => let '(r, out) := import_postfinance dbg a items in finish_run false out r
   end.
